@@ -298,6 +298,9 @@ def run(ctx):
     ctx.rule("R04.4", "journal ownership map: written only by the issuer, keyed by this worker, on the successful RUNNING "
              "transition; read inside the critical section for the return value")
     rcls = p.cls(REPLAY)
+    # a claim by another worker is seen only if the record carrying it is replayed: the cursor moves one record at a time
+    from rules.c06 import cursor_per_record
+    cursor_per_record(ctx, "R04.4", rcls)
     n_w = 0
     for mname, f in sorted(rcls.methods.items()):
         g = CFG(f.node, name=f.qualname)
@@ -506,3 +509,13 @@ def run(ctx):
               message=f"InMemoryStorage.create_new_trial keeps `{norm(stored[0].value) if stored else tvar}`: the queued trial shares its params / fixed_params / user_attrs "
                       f"dicts with the caller, so mutating the dict after enqueue_trial (the grid-loop idiom) changes what the worker receives",
               how="trial = copy.deepcopy(template_trial)")
+
+    # ------------------------------------------------------------ R04.7 every worker's listing sees every queued trial
+    ctx.rule("R04.7", "a queued trial is visible to every asking worker: the client caches that sit between Study._pop_waiting_trial_id and the backend refresh "
+             "with an incremental fetch that is not filtered by state (a filtered fetch lets the watermark jump over a WAITING trial of another worker)")
+    from rules.c08 import fetch_is_unfiltered
+    n7 = 0
+    for q in ("optuna.storages._cached_storage._CachedStorage", "optuna.storages._grpc.client.GrpcClientCache"):
+        n7 += fetch_is_unfiltered(ctx, "R04.7", p.cls(q))
+    ctx.floor("R04.7", "incremental_fetch_sites", n7, 2)
+
